@@ -78,11 +78,50 @@ class TByArity(T):
         return self.resolve(st.ex).fresh(st, hint)
 
 
+class TStepUnion(T):
+    """A differentiation step: one global real step, or a vector of steps (``float | ndarray``); with ``optional`` also None."""
+
+    def __init__(self, optional=False):
+        self.optional = optional
+        self.name = "Step[None|real|array]" if optional else "Step[real|array]"
+
+    def fresh(self, st, hint):
+        k = st.choose(3 if self.optional else 2)
+        if k == 0:
+            return TReal.fresh(st, hint)
+        if k == 1:
+            return TArr("f", 1).fresh(st, hint)
+        return None
+
+
+class TByStep(T):
+    """A type that depends on the kind of the ``step`` argument (the steps returned by _generate_perturbations)."""
+
+    def __init__(self, real: T, array: T):
+        self.real, self.array = real, array
+        self.name = f"ByStep[{real!r}|{array!r}]"
+
+    def resolve(self, ex):
+        k = getattr(ex, "_c16_call_step", None)  # set while a callee contract is being applied (coercion of its step argument)
+        ex._c16_call_step = None
+        if k is None:
+            v = ex.frame.env["step"]
+            k = "array" if isinstance(v, Ref) else "real"
+        return self.array if k == "array" else self.real
+
+    def fresh(self, st, hint):
+        return self.resolve(st.ex).fresh(st, hint)
+
+
 class ZeroTolCtx:
     """The context manager returned by DisciplineJacApprox.__set_zero_cache_tol()."""
 
     def __init__(self, owner):
         self.owner = owner
+
+
+_F2S = TArr("f", 2).sort()
+np_allclose = z3.Function("np_allclose", _F2S, _F2S, z3.RealSort(), z3.RealSort(), z3.BoolSort())
 
 
 def dict_total(t):
@@ -287,6 +326,16 @@ class C16Models:
             return v
         if isinstance(t, TByArity):
             return ex.coerce(v, t.resolve(ex))
+        if isinstance(t, TStepUnion):
+            ex._c16_call_step = "array" if isinstance(v, Ref) else "real"  # (only call sites coerce): remembered for the result type of the callee contract
+            if isinstance(v, (int, float)) and not isinstance(v, bool):
+                return SV(TReal.embed(ex.st, float(v)), TReal)
+            return v
+        if isinstance(t, TByStep):
+            return ex.coerce(v, t.resolve(ex))
+        if _on(ex) and isinstance(t, TList) and isinstance(v, Ref) and getattr(ex.st.heap.get(v.id), "is_empty_literal", False) \
+                and type(ex.st.heap[v.id]).__name__ == "DictObj":
+            v = ()  # `{}` handed to a sequence parameter (check_jacobian: input_indices = {}): an empty sequence
         if _on(ex) and isinstance(v, tuple) and not v and isinstance(t, TList):
             o = ListObj(t.t, z3.IntVal(0), ex.st.fresh_const("emptyl", z3.ArraySort(z3.IntSort(), t.t.sort())))  # () for a sequence parameter
             o.ty = t
@@ -332,6 +381,18 @@ class C16Models:
                 t = TDict(o.k, TInt)
                 ex.assumed.add("sum(dict.values()) of a dict of ints: the function dict_total of the dict content (its value is stated by the contract that builds the dict)")
                 return SV(dict_total(t)(t.dt.mk(o.member, o.vals, o.n)), TInt)
+        if _on(ex) and name == "numpy.allclose" and len(args) == 2 and set(kwargs) <= {"atol", "rtol"} and all(
+                isinstance(a, Ref) and isinstance(ex.st.heap.get(a.id), ArrObj) and ex.st.heap[a.id].rank == 2 for a in args):
+            # allclose(a, b, atol, rtol): an uninterpreted predicate of the two matrices and the tolerances (the norm used is numpy's |a - b| <= atol + rtol |b|)
+            t = TArr("f", 2)
+            tol = [ex.num(kwargs.get(k, d))[0] for k, d in (("atol", 1e-8), ("rtol", 1e-5))]
+            tol = [z3.ToReal(x) if x.sort() == z3.IntSort() else x for x in tol]
+            ex.assumed.add("numpy.allclose: uninterpreted predicate np_allclose(a, b, atol, rtol)")
+            return SV(np_allclose(t.embed(ex.st, args[0]), t.embed(ex.st, args[1]), *tol), TBool)
+        if _on(ex) and name in ("numpy.amax", "numpy.max") and len(args) == 1 and isinstance(args[0], Ref) and isinstance(ex.st.heap.get(args[0].id), ArrObj):
+            return SV(ex.st.fresh_const("amax", z3.RealSort()), TReal)  # only logged
+        if _on(ex) and name == "numpy.divide" and len(args) == 2 and not kwargs:
+            return ex.binop("Div", args[0], args[1], lineno)
         if _on(ex) and name == "slice" and 1 <= len(args) <= 3 and not kwargs:
             # slice objects: the representation of subscript slices (engine.ev_slice)
             lo, hi, step = (None, args[0], None) if len(args) == 1 else (args[0], args[1], args[2] if len(args) == 3 else None)
